@@ -1436,6 +1436,7 @@ fn scale_cases(prop: &str, r: &mut Rng, out: &mut Vec<Case>) {
                 let mut c = deepcode_levels(fam, lv);
                 c.l("space 0");
                 c.l("q 0 n_levels");
+                c.l("dump 0");
                 out.push(c);
             }
         }
